@@ -35,7 +35,7 @@ void* jenv_malloc(size_t size) noexcept;
 #define free jenv_free
 #define malloc jenv_malloc
 #if !defined(JENV_SUBJECT)
-#define JENV_SUBJECT "../../../repo/asmjit/core/jitallocator.cpp"   // (overridable: mutation experiments on a copy)
+#define JENV_SUBJECT <asmjit/core/jitallocator.cpp>   // found through -I$VERIF_REPO (default /repo); overridable for experiments on a copy
 #endif
 #include JENV_SUBJECT
 #undef malloc
@@ -50,6 +50,7 @@ static_assert(sizeof(BW) == 8, "64-bit bit words");
 // Environment state (reset by env_reset()).
 static int lock_depth, lock_count, unlock_count;
 static int rw_depth, protect_calls, flush_calls;
+static void* flush_ptr[8]; static size_t flush_size[8];   // the first 8 ranges handed to flush_instruction_cache
 static int env_calls_unlocked, env_calls_locked;   // stub calls made without / with the allocator lock held
 static int vm_alloc_calls, vm_release_calls;
 static bool vm_alloc_fail, vm_fail_first_only;   // every request refused / only the first one (large pages) refused
@@ -88,7 +89,11 @@ namespace VirtMem {
 Info info() noexcept { Info i; i.page_size = 4096; i.page_granularity = 65536; return i; }
 size_t large_page_size() noexcept { jenv::env_call(); return jenv::vm_large_page_size; }
 HardenedRuntimeInfo hardened_runtime_info() noexcept { HardenedRuntimeInfo h; h.flags = HardenedRuntimeFlags::kNone; return h; }
-void flush_instruction_cache(void*, size_t) noexcept { jenv::env_call(); jenv::flush_calls++; }
+void flush_instruction_cache(void* p, size_t size) noexcept {
+  jenv::env_call();
+  if (jenv::flush_calls < 8) { jenv::flush_ptr[jenv::flush_calls] = p; jenv::flush_size[jenv::flush_calls] = size; }
+  jenv::flush_calls++;
+}
 void protect_jit_memory(ProtectJitAccess access) noexcept {
   jenv::env_call(); jenv::protect_calls++;
   if (access == ProtectJitAccess::kReadWrite) { V_ASSERT(jenv::rw_depth == 0, "protect: RW scope not nested"); jenv::rw_depth++; }
@@ -397,7 +402,7 @@ template<uint32_t W> static inline JitAllocatorBlock* new_block_object(uint32_t 
 #if defined(JENV_REAL_TREE)
   b->_tree_nodes[0] = 0; b->_tree_nodes[1] = 0;
 #else
-  b->_tree_left = nullptr; b->_tree_right = nullptr;
+  b->_tree_nodes[0] = nullptr; b->_tree_nodes[1] = nullptr;
 #endif
   b->_list_nodes[0] = nullptr; b->_list_nodes[1] = nullptr;
   b->_used_bit_vector = k == 0 ? BitStore<W>::U0 : BitStore<W>::U1;
